@@ -86,11 +86,21 @@ def dest_hc(st, rng, res, info, src, target, level):
     check_block(st, res, info, "LZ4_compress_HC_destSize(level=%d)" % level, src, target, r, consumed, out)
     if 0 < consumed < len(src): res["keys"].add(cc.key_of(src, "hcdest", level, target))
 
-def hc_stream(st, rng, res, info, data, first, offered, target, level, nexts):
+def hc_stream(st, rng, res, info, data, first, offered, target, level, nexts, dict_=b""):
     """stream: [first block by HC_continue] ; continue_destSize(offered, target) ; further blocks from the first unconsumed byte"""
     lib = st["lib"]
     whole = Buf(len(data), data=data)
     stb = blk.junk_state(lib, "hc", rng.randrange(1 << 30)); lib.initStreamHC(stb.p, stb.n); lib.setCompressionLevel(stb.p, level)
+    dstb = dbuf = None
+    if dict_:
+        # a prepared dictionary stream attached to the working stream (LZ4_attach_HC_dictionary): the decoder has
+        # the dictionary bytes followed by everything decoded so far
+        dbuf = Buf(len(dict_), data=dict_)
+        dstb = blk.junk_state(lib, "hc", rng.randrange(1 << 30)); lib.initStreamHC(dstb.p, dstb.n)
+        lib.setCompressionLevel(dstb.p, rng.choice([1, 2, 3, 9, 12]))
+        lib.loadDictHC(dstb.p, dbuf.p, len(dict_))
+        lib.attach_HC_dictionary(stb.p, dstb.p)
+        first = 0
     pos = 0
     first = min(first, max(0, len(data) - 1000))
     def blockfail(msg, **kw):
@@ -109,7 +119,7 @@ def hc_stream(st, rng, res, info, data, first, offered, target, level, nexts):
     out = d.bytes(r) if 0 < r <= target else b""; d.free()
     consumed = sz.value
     if not check_block(st, res, dict(info, level=level, first=first), "LZ4_compress_HC_continue_destSize(level=%d)" % level,
-                       data[pos:pos + offered], target, r, consumed, out, hist=data[:pos]):
+                       data[pos:pos + offered], target, r, consumed, out, hist=(dict_ + data[:pos])):
         whole.free(); stb.free(); return
     if 0 < consumed < offered: res["keys"].add(cc.key_of(data[pos:pos+offered], "hcc", level, target))
     pos += consumed
@@ -119,7 +129,8 @@ def hc_stream(st, rng, res, info, data, first, offered, target, level, nexts):
         d = Buf(cap, fill=0xC3)
         r = lib.compress_HC_continue(stb.p, (whole.p or 0) + pos, d.p, nb, cap); res["evals"] += 1
         out = d.bytes(max(r, 0)); d.free()
-        a = st["oracle"].ask("strict", blk.hx(data[max(0, pos - 65536):pos]) if pos else "-", blk.hx(out))
+        h = (dict_ + data[:pos])[-65536:]
+        a = st["oracle"].ask("strict", blk.hx(h) if h else "-", blk.hx(out))
         if r <= 0 or a != "ok %d %s" % (nb, blk.md5(data[pos:pos + nb])):
             blockfail("block of %d bytes compressed after LZ4_compress_HC_continue_destSize (which consumed %d of %d offered) does not decode against the consumed history: ret=%d, specification decoder: %s" % (nb, consumed, offered, r, a[:40]),
                       pos=pos, consumed=consumed)
@@ -127,6 +138,7 @@ def hc_stream(st, rng, res, info, data, first, offered, target, level, nexts):
         res["keys"].add(cc.key_of("after", info.get("bseed"), info.get("j"), nb))
         pos += nb
     whole.free(); stb.free()
+    if dstb: dstb.free(); dbuf.free()
 
 def targets_for(st, rng, src, dense):
     lib = st["lib"]; n = len(src); b = cc.bound(n)
@@ -190,6 +202,16 @@ def run_case(st, case):
             offered = rng.choice([5000, 60000, 100000])
             target = rng.choice([20, 100, 2100, 5000, rng.randrange(1, 8000)])
             nexts = [rng.choice([1, 100, 1000, 3000, 60000]) for _ in range(rng.choice([1, 2, 3]))]
-            hc_stream(st, rng, res, info, data, first, offered, target, rng.choice([1, 2, 3, 4, 6, 9, 10, 11, 12]), nexts)
+            dict_ = b""
+            if rng.random() < 0.4:
+                # attached dictionary whose content recurs in the data (both in the destSize block and after it)
+                dict_ = gens.data(rng, rng.choice(["text", "random", "selfdict"]), rng.choice([100, 4000, 65536, 70000]))
+                mix = bytearray(data)
+                for _ in range(40):
+                    l = rng.choice([16, 64, 300]); sd = rng.randrange(0, max(1, len(dict_) - l)); so = rng.randrange(0, max(1, min(len(mix), 12000) - l))
+                    mix[so:so + l] = dict_[sd:sd + l]
+                data = bytes(mix[:len(data)])
+                offered = rng.choice([500, 2000, 4000, 5000, 60000])
+            hc_stream(st, rng, res, info, data, first, offered, target, rng.choice([1, 2, 3, 4, 6, 9, 10, 11, 12]), nexts, dict_)
         res["stats"]["mode_" + mode] += 1
     return cc.finish(res, mode)
